@@ -1,5 +1,6 @@
 """C02 - the call sampler is stationary at the exact posterior."""
 from . import wl_call
+from . import wl_cli
 from .engine_k import bootstrap
 
 ID = "C02"
@@ -12,23 +13,26 @@ MIN_BUDGET = 60
 MIN_WALL = 240.0
 
 RULE = (
-    "one evaluation = one simulated call-sampler run (haplotype set, frequencies, reads, start state, scan order and every draw from the tape); "
+    "one evaluation = one simulated call-sampler run, or (5%) one end-to-end run of `mchap call` + `mchap call-exact` on files written for the run (haplotype set, frequencies, reads, start state, scan order and every draw from the tape); "
     "distinct_nontrivial = distinct (instance shape, canonical current genotype, resampled position's allele [, proposed allele], inbreeding, frequency mode) "
     "tuples of EXECUTED Gibbs / Metropolis-Hastings updates whose vector was compared with the independent posterior"
 )
 FAULT_KEYS = ["adversarial_choice", "shuffle"]
-PROBE_KEYS = ["sweep_kernels_extracted", "gibbs_draws_verified", "sweeps_full", "choice_fidelity_checked", "gibbs_vectors", "mh_pairs", "dup_state_move", "inbred_move", "skewed_freq_move", "exact_premise_checked", "underflow_skip"]
+PROBE_KEYS = ["sweep_kernels_extracted", "gibbs_draws_verified", "sweeps_full", "choice_fidelity_checked", "gibbs_vectors", "mh_pairs", "dup_state_move", "inbred_move", "skewed_freq_move", "exact_premise_checked", "underflow_skip",
+              "cli_targets_compared", "cli_genotypes_compared", "cli_zero_frequency_allele", "cli_reference_masked", "cli_exact_array_compared"]
 OPTIONAL_PROBES = {"quick": ("underflow_skip",), "thorough": ("underflow_skip",)}
 COMPONENTS = {
     "real": ["mchap.calling.mcmc.{gibbs_options,mh_options,compound_step,mcmc_sampler,greedy_caller}", "mchap.calling.classes.CallingMCMC.fit",
              "mchap.calling.prior.*", "mchap.calling.likelihood.*", "mchap.calling.exact.{genotype_likelihoods,genotype_posteriors} (premise)",
+             "cli flavour: mchap.application.{call,call_exact}.program end to end (argument parsing, pysam on real files written for the run, LocusPrior, read encoding, record formatting), single core",
              "all executed as plain Python (NUMBA_DISABLE_JIT=1)"],
     "stub": ["numpy.random.* (tape)", "random_choice in calling.mcmc (tape)"],
 }
 ASSUMPTIONS = [
     "numba compiles gibbs_options / mh_options / compound_step faithfully (observed interpreted)",
     "reference posterior written from the documentation in sim/refmodel.py",
-    "frequencies strictly positive (zero-frequency alleles are removed by the application before sampling: C16, not claimed)",
+    "kernel runs use strictly positive frequencies; zero-frequency and masked alleles enter through the cli flavour, where the application removes them before sampling",
+    "cli flavour: the k-th numerical-core call inside one call_sample_genotypes invocation belongs to the k-th sample of the record",
 ]
 
 
@@ -37,12 +41,17 @@ def prepare(tier):
 
 
 def gen_config(rng, tier, index=0):
+    if rng.random() < 0.05:
+        return wl_cli.gen_call_config(rng, tier)
     cfg = wl_call.gen_config(rng, tier, "db")
     cfg["record_kernels"] = tier == "thorough" and index % 20 == 0
     return cfg
 
 
 def execute(ctx):
+    if ctx.config.get("flavor") == "cli":
+        # `mchap call` and `mchap call-exact` end to end on the same files: same exact target, and the one the inputs define
+        return wl_cli.run_call_cli(ctx)
     sim = wl_call.CallSim(ctx, ctx.config, checks=("db",))
     sim.check_exact_premise()
     if ctx.config.get("sweep_kernel"):
@@ -55,6 +64,8 @@ def sut_exception_is_violation(e, ctx):
 
 
 def shrink_candidates(cfg, violation):
+    if cfg.get("flavor") == "cli":
+        return wl_cli.shrink_candidates(cfg)
     return wl_call.shrink_candidates(cfg, violation)
 
 
